@@ -30,6 +30,8 @@ def run(ctx):
                 "fault on the output while a backup was requested; distinct by hash of (configuration, fault)")
     tmp = tempfile.mkdtemp(prefix="simfile-verif-c06-")
     reqs, metas = [], []
+    dreqs, dmetas = [], []
+    xreqs, xmetas = [], []
     idx = [0]
 
     def world(kind, files, rec=None):
@@ -61,8 +63,11 @@ def run(ctx):
                             except BaseException as e:
                                 return ("raised", e)
 
+                        cap = {}
                         def edit_ok(sf):
+                            if "entry" not in cap: cap["entry"] = str(sf)
                             sf.title = new_title
+                            if "exit" not in cap: cap["exit"] = str(sf); cap["dump"] = objs.dump(sf)
                         # fault-free run: learn N and the expected bytes ------------------------------
                         w = world(kind, files)
                         r = do(w, edit_ok)
@@ -72,12 +77,14 @@ def run(ctx):
                             res.violation(base_case, "fault-free mutate failed", impl=repr(r[1])); continue
                         out_bytes = good[outn or "in" + ext]; bak_bytes = good.get(bakn) if bakn else None
                         # every k-th write-side call fails ----------------------------------------------
-                        for k in range(n_calls):
-                            rec = fstools.Recorder(fail_at=k)
+                        seq0 = (["openW", "write", "close"] if bakn else []) + ["openW", "write", "close"]
+                        for k, lossy in [(k, l) for k in range(n_calls) for l in ((False, True) if seq0[k] == "close" else (False,))]:
+                            rec = fstools.Recorder(fail_at=k, close_loses=lossy)
                             w = world(kind, files, rec)
                             r = do(w, edit_ok)
                             snap = w.snapshot(); w.close()
                             case = dict(base_case, fault_at=k, call=rec.log[-1][0] if rec.log else None)
+                            if lossy: case["close_loses_buffered_data"] = True
                             res.case(case, nontrivial=bool(bakn) and k >= 3)
                             res.traces += 1; res.count("fault_" + str(case["call"]))
                             if r[0] != "raised" or not isinstance(r[1], fstools.Fault):
@@ -113,13 +120,32 @@ def run(ctx):
                                 if bakn and name == bakn and b == bak_bytes: return "backup"
                                 if name == (outn or "in" + ext) and b == out_bytes: return "output"
                                 return "truncated"
-                            reqs.append({"op": "mutate.run", "input": w.path("in" + ext), "output": w.path(outn) if outn else None,
-                                         "backup": w.path(bakn) if bakn else None, "tries": tr, "body": "returns", "problem": "none",
-                                         "fault": k, "files": [w.path(n) for n in files]})
-                            metas.append((case, {w.path(n): cl(n) for n in snap}))
+                            if not lossy:
+                                reqs.append({"op": "mutate.run", "input": w.path("in" + ext), "output": w.path(outn) if outn else None,
+                                             "backup": w.path(bakn) if bakn else None, "tries": tr, "body": "returns", "problem": "none",
+                                             "fault": k, "files": [w.path(n) for n in files]})
+                                metas.append((case, {w.path(n): cl(n) for n in snap}))
+                            # the data-carrying model with the same fault: the bytes of every file
+                            if len(data) < 30000 and "dump" in cap:
+                                L1 = lambda b: b.decode("latin-1")
+                                text_k = cap["entry"] if on_backup else cap["exit"]
+                                half = len(text_k[: len(text_k) // 2].encode(detected))
+                                cut = 0 if failing == "openW" else (half if (failing == "write" or lossy) else 10 ** 9)
+                                def dec_or_none(b, e):
+                                    try: return b.decode(e)
+                                    except UnicodeDecodeError: return None
+                                codecs = [[e, {"decode": [[L1(data), dec_or_none(data, e)]],
+                                               "encode": [[t, L1(t.encode(e))] for t in dict.fromkeys([cap["entry"], cap["exit"], ""]) if c05.encodable(t, e)]}] for e in tries]
+                                dreqs.append({"op": "mutate.data", "input": w.path("in" + ext), "output": w.path(outn) if outn else None,
+                                              "backup": w.path(bakn) if bakn else None, "encs": tries,
+                                              "fs": [[w.path(n), L1(v)] for n, v in files.items()], "codecs": codecs, "world": ext[1:], "strict": True,
+                                              "body": {"returns": cap["dump"]}, "fault": k, "cut": cut})
+                                dmetas.append((case, {w.path(n): L1(v) for n, v in snap.items()}, k))
                         # exceptions raised by the body ---------------------------------------------------
+                        class MyCancel(simfile.CancelMutation):
+                            pass
                         for exc in (ValueError("v"), KeyError("k"), MyError("m"), KeyboardInterrupt(), SystemExit(3), MyBase("b"),
-                                    simfile.CancelMutation()):
+                                    simfile.CancelMutation(), MyCancel()):
                             for pos in (0, 1, 2):
                                 def body(sf, exc=exc, pos=pos):
                                     if pos == 0: raise exc
@@ -134,6 +160,21 @@ def run(ctx):
                                 res.case(case, nontrivial=pos > 0); res.traces += 1
                                 if snap != files or wrote:
                                     res.violation(case, "the body raised but something on the filesystem was created or modified", impl=sorted(set(snap) ^ set(files)) or wrote[:3]); continue
+                                if pos == 0 and len(data) < 30000:
+                                    # exception values in the data-carrying model: swallowed iff an instance of CancelMutation
+                                    L1 = lambda b: b.decode("latin-1")
+                                    def dec_or_none(b, e):
+                                        try: return b.decode(e)
+                                        except UnicodeDecodeError: return None
+                                    s0text = str(s0)
+                                    exn = {"tag": type(exc).__name__, "isCancel": isinstance(exc, simfile.CancelMutation), "isException": isinstance(exc, Exception)}
+                                    xreqs.append({"op": "mutate.data", "input": w.path("in" + ext), "output": w.path(outn) if outn else None,
+                                                  "backup": w.path(bakn) if bakn else None, "encs": tries,
+                                                  "fs": [[w.path(n), L1(v)] for n, v in files.items()],
+                                                  "codecs": [[e, {"decode": [[L1(data), dec_or_none(data, e)]], "encode": [[s0text, L1(s0text.encode(e))]] if c05.encodable(s0text, e) else []}] for e in tries],
+                                                  "world": ext[1:], "strict": True, "body": {"raises": exn}, "fault": None, "cut": 0})
+                                    xmetas.append((case, {w.path(n): L1(v) for n, v in snap.items()},
+                                                   "returned" if exn["isCancel"] else ["propagated", exn], ("returned", None) if r[0] == "returned" else ("raised", r[1] is exc)))
                                 if isinstance(exc, simfile.CancelMutation):
                                     if r[0] != "returned":
                                         res.violation(case, "CancelMutation was not swallowed", impl=repr(r[1]))
@@ -224,6 +265,20 @@ def run(ctx):
         mm = {p: c for p, c in m["files"]}
         if {p: c for p, c in classes.items()} != mm:
             res.tie_break("mutate.run with fault (file map)", case, classes, mm)
+    for (case, snap_files, k), m in zip(dmetas, ctx.lean.eval_sharded(dreqs)):
+        res.traces += 1; res.count("data_model_fault_compared")
+        got_fs = {p_: b_ for p_, b_ in m["fs"]}
+        if m["outcome"] != ["ioError", k] or got_fs != snap_files:
+            diff = sorted(p_ for p_ in set(got_fs) | set(snap_files) if got_fs.get(p_) != snap_files.get(p_))
+            res.tie_break("mutate.data with fault (bytes of every file)", case, {"outcome": ["ioError", k], "files_differing": diff,
+                          "impl_len": {p_: len(snap_files.get(p_) or "") for p_ in diff}},
+                          {"outcome": m["outcome"], "model_len": {p_: len(got_fs.get(p_) or "") for p_ in diff}})
+    for (case, snap_files, exp_outcome, impl_seen), m in zip(xmetas, ctx.lean.eval_sharded(xreqs)):
+        res.traces += 1; res.count("data_model_exception_compared")
+        got_fs = {p_: b_ for p_, b_ in m["fs"]}
+        impl_outcome = "returned" if impl_seen[0] == "returned" else (exp_outcome if impl_seen[1] else "propagated a different exception")
+        if m["outcome"] != exp_outcome or got_fs != snap_files or impl_outcome != exp_outcome:
+            res.tie_break("mutate.data with a raising body (exception value, files)", case, {"outcome": impl_outcome}, {"outcome": m["outcome"]})
     res.stats["fault_triples"] = len(metas)
     res.assumptions = ["a failing open(..., 'w') is assumed not to truncate; a failing write may leave any prefix (injected: half); a failing close happens after the flush",
                        "crashes of the interpreter or the OS between calls are not modelled (call-granularity faults only)"]
